@@ -56,9 +56,13 @@ CLAIMS = {
              "time is C07's invariant.  J1939-22: an accepted long message takes exactly one free number of its kind and a refused one "
              "changes nothing (C02), no received frame touches either pool (C02), and every deletion of a send record by the pass — CTS "
              "timeout, acknowledgement timeout or arrival, peer abort (D22), end of a broadcast — returns exactly that record's number to "
-             "the pool of its kind (c10_22_deleted_returns_number); pools keep their sizes 8 and 4 over any history (C07's WF).  Partial: "
-             "the counting argument (free numbers + live records = capacity) is not one theorem; the history oracle starts 8 + 4 sessions "
-             "after every history.",
+             "the pool of its kind (c10_22_deleted_returns_number).  CONSERVATION OVER EVERY HISTORY (c10_22_conservation, Lemmas/Cons22): "
+             "after ANY sequence of send_pgn calls (one-byte PS), received frames (any identifier/content) and background passes, every "
+             "session record holds a number marked used in the pool of its kind, no two records of a kind share a number, and every used "
+             "number belongs to a live record of that kind (invariant Cons: send table as lookup function; each model operation is one of "
+             "three abstract transitions update / delete+release / take+insert; the receive path needs the repair of D29); corollaries "
+             "c10_22_used_iff_held and c10_22_idle_means_full (empty send table => all 8 + 4 numbers free).  The history oracle "
+             "additionally starts 8 + 4 sessions after every history on real stacks.",
         note="Same tie as C09. Oracle: histories of transfers with losses, injected peer aborts and silent peers on real stacks, every "
              "send_pgn result judged against a bus-only tracker of busy pairs, then full concurrency. Proved for the code as repaired by fix D1.",
         technique="Lean 4 theorems over hand model with regenerated leaves; lock-step correspondence; history oracle on real stacks",
